@@ -371,7 +371,7 @@ func literalOK(p string) bool { return !strings.ContainsAny(p, "*?[\\") }
 
 func runC10(c *fw.Ctx) {
 	r := c.Rand(uint64(1000 + c.Shard))
-	n := c.Pick(48, 10000) / c.NShards
+	n := c.Pick(48, 1500) / c.NShards
 	for i := 0; i < n; i++ {
 		g, cleanup, err := newScratchGit(c, "c10")
 		if err != nil {
